@@ -1,7 +1,7 @@
 #!/bin/bash
 # re-evaluates every stored seed against the checks expected to catch it
 cd /verif
-declare -A M=( [C01-a]="C01" [C01-b]="C01" [C02-a]="C02 C01" [C02-b]="C02" [C03-a]="C03 C16" [C03-b]="C03 C04" [C04-a]="C04" [C05-a]="C05" [C05-b]="C05 C07" [C06-a]="C06 C07" [C07-a]="C07" [C07-b]="C07 C09" [C08-a]="C08" [C09-a]="C09 C10" [C10-a]="C10" [C11-a]="C11" [C12-a]="C12" [C13-a]="C13" [C14-a]="C14" [C15-a]="C15" [C16-a]="C16" [C17-a]="C17" [C18-a]="C18" [C20-a]="C20" [C11-b]="C11 C15" [C12-b]="C12" [C13-b]="C13" [C14-b]="C14" [C15-b]="C15" [C16-b]="C16 C03" [C17-b]="C17" [C20-b]="C20" [C01-c]="C01" [C02-c]="C02" [C03-c]="C03" [C04-b]="C04" [C05-c]="C05" [C06-b]="C06 C05" [C07-c]="C07" [C08-b]="C08" [C09-b]="C09 C12" [C10-b]="C10" [C18-b]="C18" [C04-c]="C04" [C06-c]="C06 C05" [C08-c]="C08 C11" [C11-c]="C11" [C12-c]="C12" [C13-c]="C13" [C14-c]="C14" [C15-c]="C15 C11" [C16-c]="C16" [C17-c]="C17" [C18-c]="C18" [C20-c]="C20" [C01-d]="C01" [C02-d]="C02" [C03-d]="C03" [C05-d]="C05" [C07-d]="C07" [C09-c]="C09 C07" [C10-c]="C10" [C12-d]="C12" [C13-d]="C13 C11" [C14-d]="C14" [C15-d]="C15" [C16-d]="C16" )
+declare -A M=( [C01-a]="C01" [C01-b]="C01" [C02-a]="C02 C01" [C02-b]="C02" [C03-a]="C03 C16" [C03-b]="C03 C04" [C04-a]="C04" [C05-a]="C05" [C05-b]="C05 C07" [C06-a]="C06 C07" [C07-a]="C07" [C07-b]="C07 C09" [C08-a]="C08" [C09-a]="C09 C10" [C10-a]="C10" [C11-a]="C11" [C12-a]="C12" [C13-a]="C13" [C14-a]="C14" [C15-a]="C15" [C16-a]="C16" [C17-a]="C17" [C18-a]="C18" [C20-a]="C20" [C11-b]="C11 C15" [C12-b]="C12" [C13-b]="C13" [C14-b]="C14" [C15-b]="C15" [C16-b]="C16 C03" [C17-b]="C17" [C20-b]="C20" [C01-c]="C01" [C02-c]="C02" [C03-c]="C03" [C04-b]="C04" [C05-c]="C05" [C06-b]="C06 C05" [C07-c]="C07" [C08-b]="C08" [C09-b]="C09 C12" [C10-b]="C10" [C18-b]="C18" [C04-c]="C04" [C06-c]="C06 C05" [C08-c]="C08 C11" [C11-c]="C11" [C12-c]="C12" [C13-c]="C13" [C14-c]="C14" [C15-c]="C15 C11" [C16-c]="C16" [C17-c]="C17" [C18-c]="C18" [C20-c]="C20" [C01-d]="C01" [C02-d]="C02" [C03-d]="C03" [C05-d]="C05" [C07-d]="C07" [C09-c]="C09 C07" [C10-c]="C10" [C12-d]="C12" [C13-d]="C13 C11" [C14-d]="C14" [C15-d]="C15" [C16-d]="C16" [C02-e]="C02" [C04-d]="C04" [C05-e]="C05" [C06-d]="C06" [C08-d]="C08" [C11-d]="C11 C15" [C13-e]="C13" [C14-e]="C14" [C16-e]="C16" [C17-d]="C17" [C18-d]="C18" [C20-d]="C20" )
 for s in $(ls seeded | sort); do
   [ -n "${M[$s]:-}" ] || continue
   ./tools/seedcheck.sh /nonexistent $s ${M[$s]} 2>&1 | tail -1
